@@ -11,6 +11,7 @@ package xmlenc
 //@ -- registry invariant: every registered decrypter / digest method is a non-nil interface value
 //@ mapinv decrypters nonnil
 //@ mapinv digestMethods nonnil
+//@ globalinv default_cipher: AES256CBC != nil
 
 //@ go func rsaKeyOK(key interface{}) bool { k, ok := key.(*rsa.PrivateKey); return !ok || (k != nil && k.N != nil) }
 //@ go func certOK(c interface{}) bool { k, ok := c.(*x509.Certificate); return !ok || k != nil }
@@ -118,3 +119,54 @@ package xmlenc
 //@    AES128GCM.(GCM).keySize == 16 && TripleDES.(CBC).keySize == 24
 //@ ensures[C10] digests: digestMethods[SHA1.algorithm] != nil && digestMethods[SHA256.algorithm] != nil &&
 //@    digestMethods[SHA512.algorithm] != nil && digestMethods[RIPEMD160.algorithm] != nil
+
+//@ -- key transport closures: the decrypter of each RSA mode applies the inverse primitive of its encrypter (named
+//@ -- OAEP$1 = the first function literal in OAEP, the encrypter; OAEP$2 = the second, the decrypter), to the caller's
+//@ -- key and bytes, with the digest the RSA value carries and an empty label on both sides
+//@ import hash "hash"
+//@ contract OAEP$1
+//@ requires[cfg] dm: e.DigestMethod != nil && pubKey != nil
+//@ assert@call[C10] Hash #1 (dm DigestMethod) digest_of_value: dm == e.DigestMethod
+//@ assert@call[C10] EncryptOAEP #1 (h hash.Hash, r io.Reader, pk *rsa.PublicKey, msg []byte, label []byte) wraps_key:
+//@    r == RandReader && pk == pubKey && sameSlice(msg, plaintext) && len(label) == 0
+//@ contract OAEP$2
+//@ requires[cfg] dm: e.DigestMethod != nil && privKey != nil
+//@ assert@call[C10] Hash #1 (dm DigestMethod) digest_of_value: dm == e.DigestMethod
+//@ assert@call[C10] DecryptOAEP #1 (h hash.Hash, r io.Reader, sk *rsa.PrivateKey, ct []byte, label []byte) unwraps_key:
+//@    sk == privKey && sameSlice(ct, ciphertext) && len(label) == 0
+//@ contract OAEP_SHA256$1
+//@ requires[cfg] dm: e.DigestMethod != nil && pubKey != nil
+//@ assert@call[C10] Hash #1 (dm DigestMethod) digest_of_value: dm == e.DigestMethod
+//@ assert@call[C10] EncryptOAEP #1 (h hash.Hash, r io.Reader, pk *rsa.PublicKey, msg []byte, label []byte) wraps_key:
+//@    r == RandReader && pk == pubKey && sameSlice(msg, plaintext) && len(label) == 0
+//@ contract OAEP_SHA256$2
+//@ requires[cfg] dm: e.DigestMethod != nil && privKey != nil
+//@ assert@call[C10] Hash #1 (dm DigestMethod) digest_of_value: dm == e.DigestMethod
+//@ assert@call[C10] DecryptOAEP #1 (h hash.Hash, r io.Reader, sk *rsa.PrivateKey, ct []byte, label []byte) unwraps_key:
+//@    sk == privKey && sameSlice(ct, ciphertext) && len(label) == 0
+//@ contract OAEP_SHA512$1
+//@ requires[cfg] dm: e.DigestMethod != nil && pubKey != nil
+//@ assert@call[C10] Hash #1 (dm DigestMethod) digest_of_value: dm == e.DigestMethod
+//@ assert@call[C10] EncryptOAEP #1 (h hash.Hash, r io.Reader, pk *rsa.PublicKey, msg []byte, label []byte) wraps_key:
+//@    r == RandReader && pk == pubKey && sameSlice(msg, plaintext) && len(label) == 0
+//@ contract OAEP_SHA512$2
+//@ requires[cfg] dm: e.DigestMethod != nil && privKey != nil
+//@ assert@call[C10] Hash #1 (dm DigestMethod) digest_of_value: dm == e.DigestMethod
+//@ assert@call[C10] DecryptOAEP #1 (h hash.Hash, r io.Reader, sk *rsa.PrivateKey, ct []byte, label []byte) unwraps_key:
+//@    sk == privKey && sameSlice(ct, ciphertext) && len(label) == 0
+//@ contract PKCS1v15$1
+//@ requires[cfg] key: pubKey != nil
+//@ assert@call[C10] EncryptPKCS1v15 #1 (r io.Reader, pk *rsa.PublicKey, msg []byte) wraps_key:
+//@    r == RandReader && pk == pubKey && sameSlice(msg, plaintext)
+//@ contract PKCS1v15$2
+//@ requires[cfg] key: privKey != nil
+//@ -- rsa.DecryptPKCS1v15 returns the message whatever its length: the key size is not tied to the block cipher the
+//@ -- registered instance happens to carry
+//@ assert@call[C10] DecryptPKCS1v15 #1 (r io.Reader, sk *rsa.PrivateKey, ct []byte) unwraps_key:
+//@    sk == privKey && sameSlice(ct, ciphertext)
+
+//@ -- constructors: modes and their identifiers, with both closures present
+//@ contract OAEP
+//@ ensures[C10] mode: result.algorithm == "http://www.w3.org/2001/04/xmlenc#rsa-oaep-mgf1p" && result.keyEncrypter != nil && result.keyDecrypter != nil && result.BlockCipher != nil
+//@ contract PKCS1v15
+//@ ensures[C10] mode: result.algorithm == "http://www.w3.org/2001/04/xmlenc#rsa-1_5" && result.keyEncrypter != nil && result.keyDecrypter != nil && result.BlockCipher != nil
